@@ -112,7 +112,10 @@ fn scan_vars(text: &str) -> (String, Vec<(String, usize)>) {
 
 pub fn enum_clause(_s: u64) -> Vec<String> {
     let rules = ["f($X, $Y) :- g($X), h($Y, $X, [a, $X | $T]).", "p([], [$H | $T], $H).", "q($A) :- $A = [$B, []], not(r($B)), $C = add($B, 1), print($C, $A).",
-        "s($X) :- t($X, $Y); u($Y, $Z), !, $Z > $X.", "w($_, $X, $X).", "n(a, 1, 2.5)."];
+        "s($X) :- t($X, $Y); u($Y, $Z), !, $Z > $X.", "w($_, $X, $X).", "n(a, 1, 2.5).",
+        // every kind of built-in goal shares the clause's variables: filter patterns, functor, count, append, comparison, print_list
+        "parents_of($C, $Ps) :- family($F), include(parent($_, $C), $F, $Ps), exclude(parent($C, $_), $F, $R), count($R, $N), $N >= 0.",
+        "v($X, $L) :- functor($X, $F, $N), append($F, [$N | $L], $X, $Out), print_list($Out), nl, time(not(v($Out, $L)))."];
     let queries = ["f($X, $Y, $X)", "g([$A, $B | $A], [], $C)", "h(a)", "k($X, add($X, $Y), [$Y])"];
     let mut out: Vec<String> = rules.iter().map(|r| format!("rule\u{1}{}", r)).collect();
     out.extend(queries.iter().map(|q| format!("query\u{1}{}", q)));
